@@ -12,7 +12,7 @@ check('C16', 'symbolic execution of the MIR of Sanitizer::* with all inputs up t
       'trusted: python models of std str/String/char/iterator functions (validated against the native build on every run with the repo test literals and seeded random inputs), the alphabet class argument for code points outside ASCII+R, z3. separator none is outside the statement: only length bound/panic freedom (and, without max_length, leading-zero rule + idempotence).',
       'DESIGN.md §3, §7 C16')
 
-NA['C18'] = 'finite table comparison between python source and clap derive metadata plus process execution; nothing to decide symbolically, clap builder code is outside both engines (DESIGN §6)'
+NA['C18'] = 'finite table comparison between python source and clap derive metadata plus process execution; nothing to decide symbolically, clap builder code is outside both engines; CrossHair on the Python argv builder was tried and finds seeded bugs but never confirms path exhaustion on the real function, so it would be unbounded bug hunting (DESIGN §6)'
 
 check('C10', 'symbolic execution of the MIR of <SemVer as Ord>::cmp / PartialEq::eq / partial_cmp on symbolic version pairs and triples; z3 compares against an independent SemVer 2.0.0 §11 comparator',
       'Two (three) SemVer records with fully symbolic u64 numbers and symbolic identifier contents (shape enumerated: pre-release lists up to 2 (thorough 3) identifiers, strings up to 2 (3) chars, arbitrary build metadata) are run through the real comparator MIR; per path z3 is asked for values where cmp differs from the spec comparator, where cmp(b,a) is not the reverse, where == disagrees with cmp == Equal, where partial_cmp differs, or where transitivity fails. Every model is replayed on the native build before it is reported.',
